@@ -119,15 +119,25 @@ pub fn run(cases_path: &str, out_path: &str, tier: &str, seed: u64) {
 
             // (2) NormalizedReader: the string embedded at every offset against the 512 window,
             //     under several source schedules and consumer read sizes
-            let offsets: Vec<usize> = if s.len() <= 8 { (0..=s.len() + 1).collect() } else { vec![0] };
+            // offsets 0..=len+1: the string straddles the 1024 boundary, followed by a trailer;
+            // offset 1000+k: the string *ends the input* exactly k octets after a window boundary
+            let offsets: Vec<usize> = if s.len() <= 8 { (0..=s.len() + 1).chain([1000, 1001]).collect() } else { vec![0] };
             for off in offsets {
-                let pad = if s.len() <= 8 { 512 * 2 - off.min(512 * 2) } else { 0 };
+                let at_end = off >= 1000;
+                let pad = if at_end {
+                    (512 * 2 + (off - 1000)).saturating_sub(bytes.len())
+                } else if s.len() <= 8 {
+                    512 * 2 - off.min(512 * 2)
+                } else {
+                    0
+                };
+                let trailer: &[u8] = if s.len() <= 8 && !at_end { b"qq" } else { b"" };
                 let mut input = vec![b'p'; pad];
                 input.extend_from_slice(&bytes);
-                input.extend_from_slice(if s.len() <= 8 { b"qq" } else { b"" });
+                input.extend_from_slice(trailer);
                 let mut expect = vec![b'p'; pad];
                 expect.extend_from_slice(&want);
-                expect.extend_from_slice(if s.len() <= 8 { b"qq" } else { b"" });
+                expect.extend_from_slice(trailer);
                 for (si, sched) in [vec![usize::MAX], vec![1], vec![511, 1, 2], vec![7, 509]].iter().enumerate() {
                     for rd in [0usize, 1, 3, 512] {
                         if si > 1 && rd == 1 { continue; }
